@@ -26,6 +26,12 @@ def plan_roundtrip(pid, rng, quick):
         bs = [big] if i % 2 == 0 else [otap.rand_batch(rng, rich=2), big]
         bs.append(otap.rand_batch(rng, rich=1))
         plan.append({"id": "rt-big/%s/%d" % (signal, i), "signal": signal, "opts": {}, "batches": bs, "props": [pid], "mode": 0, "nowire": True})
+    # every sibling record of one shape (all attribute maps alike, every metric kind, exemplars / events / links with attributes)
+    for i in range(4 if quick else 40):
+        v = 1 + i % 3
+        bs = [uniform_batch(rng, v), uniform_batch(rng, v), uniform_batch(rng, 1 + (v % 3)), otap.rand_batch(rng, rich=2)]
+        plan.append({"id": "rt-uniform/%s/%d" % (signal, i), "signal": signal, "opts": otap.opts_random(rng) if i % 2 else {},
+                     "batches": bs, "props": [pid], "mode": 0})
     # a refused batch (more resources than 16-bit ids) must not disturb the batches that follow it
     for i in range(3 if quick else 12):
         bs = [otap.rand_batch(rng, rich=2), {"gen": "parents", "n": rng.choice([65536, 65540]), "nres": 70000, "with": "resattr", "nodump": True},
@@ -33,6 +39,9 @@ def plan_roundtrip(pid, rng, quick):
         plan.append({"id": "rt-after-refusal/%s/%d" % (signal, i), "signal": signal, "opts": {}, "batches": bs,
                      "props": [pid], "mode": 2, "nowire": True})
     return plan
+
+def uniform_batch(rng, variant):
+    return {"gen": "uniform", "n": variant, "seed": rng.randint(1, 1 << 40), "rich": 2, "guarded": True, "maxRes": 2, "maxScope": 2, "maxItems": 6}
 
 def ramp(signal, n, distinct, base, col, nodump=True):
     return {"gen": "ramp", "n": n, "distinct": distinct, "base": base, "col": col, "nodump": nodump}
@@ -174,6 +183,18 @@ def plan_wire(pid, rng, quick):
                 b["signal"] = rng.choice(["traces", "logs", "metrics"])
         st["nodecode"] = True
         plan.append(st)
+    # sibling records of one shape: every attribute map of a batch has the same columns, every metric kind and every
+    # exemplar / event / link attribute record occurs, so all records of one family share an Arrow schema signature
+    for signal in ("traces", "logs", "metrics"):
+        for variant in (1, 2, 3):
+            for rep in range(1 if quick else 6):
+                o = otap.opts_random(rng) if rep % 2 else {}
+                bs = [uniform_batch(rng, variant) for _ in range(2)] + [uniform_batch(rng, 1 + variant % 3)]
+                if rep % 3 == 2 or quick:
+                    bs.append(dict(uniform_batch(rng, variant), signal=rng.choice(["traces", "logs", "metrics"])))
+                    bs.append(uniform_batch(rng, variant))
+                plan.append({"id": "wire-uniform/%s/v%d/%d" % (signal, variant, rep), "signal": signal, "opts": o, "batches": bs,
+                             "props": [], "mode": 0, "nodecode": True})
     dicts = ["8", "8", "16", "", "none", "32", "64"]
     for i in range(30 if quick else 400):
         signal = rng.choice(["traces", "logs", "metrics"])
@@ -277,6 +298,25 @@ def plan_c07(pid, rng, quick):
                 bs.append(otap.rand_batch(rng, rich=2, twins=False))
             plan.append({"id": "fault2/%s/%d" % (signal, i), "signal": signal, "opts": {}, "batches": bs, "props": [],
                          "mode": 0, "nowire": True})
+        # established sub-streams (the faulted batch continues them: its payloads carry no schema message), one payload
+        # duplicated and the copy altered.  This family is the shape of the counterexamples TLC finds for Stream.tla's
+        # specification mutants (a reader advanced again after it handed out the main record).
+        foreign = [t for t in RELABEL[signal] if t not in (RELABEL[signal][0],)] + ["MULTIVARIATE_METRICS"]
+        k = 0
+        for prefix in (1, 2):
+            for i in (0, 1, 2):
+                seconds = [["relabel", -1, t] for t in foreign] + [["empty", -1], ["unknownSid", -1], ["staleSid", -1], ["drop", i],
+                                                                    ["swap", i, -1], ["dup", -1]]
+                for second in seconds:
+                    if quick and i > 0 and rng.random() < 0.5:
+                        continue
+                    first = otap.rand_batch(rng, rich=2, twins=False, size="medium") if k % 2 else ramp(signal, 12, 4, 0, RAMP_COLS[signal][1], nodump=False)
+                    k += 1
+                    bs = [first] + [{"resend": 1} for _ in range(prefix - 1)] + [{"resend": 1, "faults": [["dup", i], second]}]
+                    if rng.random() < 0.5:
+                        bs.append({"resend": 1})
+                    plan.append({"id": "established/%s/p%d/dup%d-%s" % (signal, prefix, i, "-".join(map(str, second))), "signal": signal,
+                                 "opts": {}, "batches": bs, "props": [], "mode": 0, "nowire": True})
         # healthy streams: a well-formed batch on a healthy stream is decoded completely
         for i in range(20 if quick else 300):
             plan.append(otap.rand_stream(rng, "healthy/%s/%d" % (signal, i), signal, []))
